@@ -120,26 +120,7 @@ func main() {
 	hx.Loop(func(c map[string]any) any {
 		switch c["op"] {
 		case "rt":
-			kv := buildKV(c["kv"].([]any))
-			tl, _ := c["tensors"].([]any)
-			ts := make([]ggml.Tensor, 0, len(tl))
-			blocks := make([]int, 0, len(tl))
-			for i, e := range tl {
-				m := e.(map[string]any)
-				shape := []uint64{}
-				for _, x := range m["shape"].([]any) {
-					shape = append(shape, u64(x))
-				}
-				data, err := hex.DecodeString(m["data"].(string))
-				if err != nil {
-					panic("harness: bad hex")
-				}
-				t := ggml.Tensor{Name: hx.Unhex(m["name"]), Kind: uint32(hx.Int(m["kind"])), Shape: shape, WriterTo: &idxReader{bytes.NewReader(data), i}}
-				ts = append(ts, t)
-				blocks = append(blocks, ggml.VerifBlock(t))
-			}
-			var out []byte
-			var werr error
+			job := prepareRT(c)
 			if f, _ := c["file"].(bool); f {
 				fh, err := os.CreateTemp(".", "c05-*.gguf")
 				if err != nil {
@@ -147,30 +128,16 @@ func main() {
 				}
 				defer os.Remove(fh.Name())
 				defer fh.Close()
-				werr = ggml.WriteGGUF(fh, kv, ts)
-				out, _ = os.ReadFile(fh.Name())
+				job.werr = ggml.WriteGGUF(fh, job.kv, job.ts)
+				job.out, _ = os.ReadFile(fh.Name())
 			} else {
 				ws := &memWS{}
-				werr = ggml.WriteGGUF(ws, kv, ts)
-				out = ws.b
+				job.werr = ggml.WriteGGUF(ws, job.kv, job.ts)
+				job.out = ws.b
 			}
-			res := map[string]any{"blocks": blocks}
-			if werr != nil {
-				res["werr"] = werr.Error()
-				return res
-			}
-			order := make([]int, 0, len(ts))
-			for _, t := range ts {
-				order = append(order, t.WriterTo.(*idxReader).idx)
-			}
-			res["order"] = order
-			res["bytes"] = hex.EncodeToString(out)
-			via := ""
-			if f, _ := c["file"].(bool); f {
-				via = "c05-dec.gguf"
-			}
-			res["dec"] = ggdump.Decode(out, hx.Int(c["max_array"]), via)
-			return res
+			return job.result(c)
+		case "conc":
+			return runConcurrent(c)
 		case "block":
 			// Tensor.block() for explicit names
 			out := []string{}
